@@ -17,7 +17,7 @@ import os, re, shutil, subprocess, sys, json
 import vlib
 
 PROP_FILE = "Props/Properties_C20.v"
-WRAPS = ("read", "write", "fopen", "open", "opendir", "close")
+WRAPS = ("read", "write", "fopen", "open", "opendir", "close", "select")
 BUF = 32768
 
 
@@ -248,6 +248,13 @@ def gen_cases(ctx, root, files, longdirs):
     for fam in (4, 6):
         for lr in lreqs:
             add("listener", default_cfg(rng), [dict(lreq=fam, data=lr)] + ([segment(rng, req_line(rng, b"/plain.txt"))] if rng.random() < 0.5 else []))
+    # C3. the send side: a client requests a file much larger than the socket buffers and stops reading
+    for mw in (20000, 0, 1, 4999, 5000, 5001, 12000, 60000):
+        for dec in ("t", "r", "tr", "ttr", "trtr", "tttr"):
+            if quick and dec not in ("t", "ttr") and rng.random() < 0.5:
+                continue
+            add("send", default_cfg(rng), [dict(sreq=mw, dec=dec, data=b"GET /big.bin HTTP/1.0\r\n\r\n")])
+    add("send", default_cfg(rng), [dict(sreq=20000, dec="t", data=b"GET /nonexistent HTTP/1.0\r\n\r\n")])
     # D. not a GET
     others = [b"POST / HTTP/1.0\r\n\r\n", b"HEAD / HTTP/1.0\r\n\r\n", b"get / HTTP/1.0\r\n\r\n", b" GET / HTTP/1.0\r\n\r\n", b"GET\t/ HTTP/1.0\r\n\r\n",
               b"GET/ HTTP/1.0\r\n\r\n", b"GET \r\n\r\n", b"GET  \t \r\n\r\n", b"GET", b"\r\n\r\n", b"\n\n", b"\x00GET / HTTP/1.0\r\n\r\n",
@@ -391,7 +398,9 @@ def case_lines(k, case):
     for i, segs in enumerate(case["reqs"]):
         if pz:
             L.append("poison " + hx(pz[i % len(pz)]))
-        if isinstance(segs, dict):
+        if isinstance(segs, dict) and "sreq" in segs:
+            L.append("sreq %d %s %s" % (segs["sreq"], segs["dec"], hx(segs["data"])))
+        elif isinstance(segs, dict):
             L.append("lreq %d %s" % (segs["lreq"], hx(segs["data"])))
         else:
             L.append("req " + " ".join(s if isinstance(s, str) else hx(s) for s in segs))
@@ -416,6 +425,8 @@ def parse_case_lines(lines):
             reqs.append([s if s in ("EOF", "ERR") else unhx(s) for s in q[1:]])
         elif q and q[0] == "lreq":
             reqs.append(dict(lreq=int(q[1]), data=unhx(q[2])))
+        elif q and q[0] == "sreq":
+            reqs.append(dict(sreq=int(q[1]), dec=q[2], data=unhx(q[3])))
         elif q and q[0] == "poison":
             pz.append(unhx(q[1]))
     c = dict(cls=hdr[2] if len(hdr) > 2 else "corpus", cfg=cfg, reqs=reqs)
@@ -439,7 +450,7 @@ def blocks(lines):
     for l in lines:
         if l == "poison":
             continue
-        if l in ("req", "lreq"):
+        if l in ("req", "lreq", "sreq"):
             cur = []
             out.append(cur)
         elif cur is not None:
@@ -608,6 +619,26 @@ def oracle_req(env, cfg, segs, impl):
     return None
 
 
+def oracle_send(rq, impl):
+    """send side: a peer that stops reading must not hold rfbHttpCheckFds longer than rfbMaxClientWait plus one
+    select slice of (virtual) time"""
+    feat = dict(kind="send-stall", maxwait=rq["sreq"], dec=rq["dec"])
+    cr = [l for l in impl if l.startswith("crash")]
+    if cr:
+        return ("httpd does not survive a client that stops reading: %s" % cr[0], feat)
+    sl = [int(l.split()[1]) for l in impl if l.startswith("slice ")]
+    vw = [int(l.split()[1]) for l in impl if l.startswith("vwait ")]
+    if "stall" in impl:
+        return ("rfbHttpCheckFds keeps waiting for a client that does not read: %d ms of virtual time without progress, "
+                "rfbMaxClientWait is %d ms (select slice %s ms)" % (vw[0] if vw else -1, rq["sreq"], sl[0] if sl else "?"), feat)
+    if vw and sl and rq["dec"].strip("t") == "":
+        allowed = max(rq["sreq"], 0) + sl[0]
+        if vw[0] > allowed:
+            return ("a client that stops reading held rfbHttpCheckFds for %d ms of virtual time, more than rfbMaxClientWait %d ms + one "
+                    "slice of %d ms" % (vw[0], rq["sreq"], sl[0]), feat)
+    return None
+
+
 # ---------------------------------------------------------------- the check
 def ensure_model(pid):
     """Extraction always writes /verif/build/ocaml/<pid>/model.ml (path relative to coq/); with a
@@ -654,8 +685,11 @@ def compare_case(env, case, ilines, mlines):
         tree, alt = split_alt(mb[r]) if r < len(mb) else ([], [])
         if impl == ["unsupported"]:
             continue
-        e = oracle_req(env, case["cfg"], segs, impl)
-        if e and isinstance(rq, dict):
+        is_send = isinstance(rq, dict) and "sreq" in rq
+        e = oracle_send(rq, impl) if is_send else oracle_req(env, case["cfg"], segs, impl)
+        if is_send:
+            impl = [l for l in impl if not l.startswith(("slice ", "send "))]
+        if e and isinstance(rq, dict) and "lreq" in rq:
             e[1]["listener"] = rq["lreq"]
         if e:
             ofail.append((r, e[0], e[1]))
